@@ -13,14 +13,6 @@ namespace Leptos.Reactive
 
 def unjustIn (log : List Ev) : Bool := log.any fun e => match e with | .unjust _ => true | _ => false
 
-/-- **full statement**: for every well-formed program and every history of writes, reads and
-executor polls, no memo or effect body runs without justification.  OPEN only for programs with
-`untrack(..)` reads: `C09_run_justified` below proves it for every WF program whose bodies use tracked
-reads only (memos and effects, all histories).  It was FALSE of the code before the repair 4084efd, see
-`C09_effect_double_run_witness`. -/
-def C09_run_justified_full : Prop :=
-  ∀ (p : Prog) (ops : List Op), WF p = true → unjustIn (run p ops).log = false
-
 /-- F-C09-1: `m1 = s`, `m2 = s + m1`, an effect reading `m2` then `m1`; after the initial run,
 one write makes the effect body run twice with identical inputs the second time. -/
 def c09Prog : Prog :=
@@ -63,16 +55,22 @@ theorem unjustIn_false_iff (log : List Ev) : unjustIn log = false ↔ ∀ i, Ev.
       | unjust i => exact absurd he (h i)
       | _ => simp at hm
 
-/-- **all WF programs with tracked reads only** (memos AND effects, every history incl. polls, pause,
-resume, dispose; repaired `effUpdate`): no body ever runs unjustified.  This is `C09_run_justified_full`
-restricted by the decidable hypothesis `bodiesTracked p = true` (= `progTracked` of C01: no
-`untrack(..)` reads); what is missing for the full statement is only the treatment of untracked reads
-in the body evaluator lemma. -/
+/-- **full statement**: for every well-formed program (memos and effects, tracked and `untrack(..)`
+reads, effect bodies writing signals) and every history of writes, reads, executor polls, pause, resume
+and dispose, no memo or effect body ever runs without justification (first run, or a tracked input of
+its previous run has a new version).  It was FALSE of the code before the repair 4084efd, see
+`C09_effect_double_run_witness`.  Proof: `Proofs/ReactiveJust.lean` (invariants `InvR.verDirty` for
+memos, `EffJ` for effects, on top of the big-step lemma `upd_ok`). -/
+theorem C09_run_justified_full :
+    ∀ (p : Prog) (ops : List Op), WF p = true → unjustIn (run p ops).log = false := by
+  intro p ops hwf
+  exact (unjustIn_false_iff _).2 (no_unjust hwf ops)
+
+/-- the same under the former extra hypothesis (kept for reference) -/
 theorem C09_run_justified :
     ∀ (p : Prog) (ops : List Op), WF p = true → bodiesTracked p = true →
-      unjustIn (run p ops).log = false := by
-  intro p ops hwf ht
-  exact (unjustIn_false_iff _).2 (no_unjust hwf ht ops)
+      unjustIn (run p ops).log = false :=
+  fun p ops hwf _ => C09_run_justified_full p ops hwf
 
 /-- effect-free corollary (first stage of the proof, kept) -/
 theorem C09_memo_run_justified :
@@ -91,6 +89,13 @@ example :
     let p : Prog := [.sig 0, .memo (.rd true 0), .memo (.add (.rd true 0) (.rd true 1))]
     let ops : List Op := [.read 2, .set 0 1, .read 2, .read 1, .set 0 1, .read 2]
     WF p = true ∧ noEff p = true ∧ bodiesTracked p = true ∧ ((run p ops).get 2).runs = 3 ∧
+    unjustIn (run p ops).log = false := by decide +kernel
+
+/-- non-vacuity with `untrack`: a memo reading `s0` tracked and `s1` untracked, and an effect on it -/
+example :
+    let p : Prog := [.sig 0, .sig 0, .memo (.add (.rd true 0) (.rd false 1)), .eff (.rd true 2)]
+    let ops : List Op := [.idle, .set 1 5, .idle, .set 0 1, .idle, .read 2]
+    WF p = true ∧ bodiesTracked p = false ∧ ((run p ops).get 2).runs = 2 ∧ ((run p ops).get 3).runs = 2 ∧
     unjustIn (run p ops).log = false := by decide +kernel
 
 end Leptos.Reactive
